@@ -73,12 +73,15 @@ def assigned_names(body_nodes):
     return names, attrs, mutated
 
 
-def _call_pred(interp, pred, env):
-    """Call a sidecar predicate, passing the values of the names it asks for."""
+def _call_pred(interp, pred, env, assumed=False):
+    """Call a sidecar predicate, passing the values of the names it asks for.  assumed: the caller is
+    going to assume the result (Interp.call_assumed)."""
     params = _param_names(pred)
     missing = [p for p in params if p not in env]
     if missing:
         raise Unsupported('loop/contract predicate asks for unknown name(s) %s' % missing)
+    if assumed:
+        return interp.call_assumed(pred, [env[p] for p in params], {})
     return interp.call(pred, [env[p] for p in params], {})
 
 
@@ -222,7 +225,7 @@ def exec_while(interp, node, frame):
     st.oblige(label + ' invariant[entry]', inv0, {'kind': 'loop-entry'})
     which = st.choose(2)
     _havoc(interp, frame, spec, modified, 'L%s' % ordinal)
-    inv = interp.truth(_call_pred(interp, spec.invariant, _env_of(interp, frame, {})))
+    inv = interp.truth(_call_pred(interp, spec.invariant, _env_of(interp, frame, {}), assumed=True))
     st.assume(inv)
     guard = interp.eval(node.test, frame)
     if which == 0:
@@ -339,7 +342,7 @@ def _for_symbolic(interp, node, frame, src):
     if which == 0:
         i = st.fresh_int('_i@' + tag)
         st.assume(z3.And(i >= start, i < n))
-        st.assume(interp.truth(_call_pred(interp, spec.invariant, env(i))))
+        st.assume(interp.truth(_call_pred(interp, spec.invariant, env(i), assumed=True)))
         x = models.slist_elem(interp, xs, i)
         if enum_start is not None:
             x = (interp.binop(ast.Add, enum_start, wrap(i - start)), x)
@@ -360,7 +363,7 @@ def _for_symbolic(interp, node, frame, src):
         raise PathAbort()
     # exit: all elements consumed
     st.assume(start <= n)
-    st.assume(interp.truth(_call_pred(interp, spec.invariant, env(z3.If(start <= n, n, start)))))
+    st.assume(interp.truth(_call_pred(interp, spec.invariant, env(z3.If(start <= n, n, start)), assumed=True)))
     if it_cell is not None:
         it_cell.pos = wrap(n)
     if node.orelse:
